@@ -18,6 +18,10 @@ func addTransactionMetadata(w http.ResponseWriter, r *http.Request) {
 	l := common.LedgerFromContext(r.Context())
 
 	common.WithBody(w, r, func(m metadata.Metadata) {
+		if m == nil {
+			api.BadRequest(w, common.ErrValidation, errors.New("metadata must be a JSON object"))
+			return
+		}
 		txID, err := strconv.ParseUint(chi.URLParam(r, "id"), 10, 64)
 		if err != nil {
 			api.BadRequest(w, common.ErrValidation, err)
